@@ -331,8 +331,20 @@ def plan_c09(tier, seed, workdir, case):
         if rnd.random() < 0.5:
             attach_void_actions(g, rnd)
         gs.append(g)
+    # the same over an alphabet with end-of-line bytes (rules whose expansion mentions eof / eolf / eol must not confuse them)
+    G2 = gen.Gen(seed * 1000 + 93, ops=CORE_OPS + CONV_OPS * 2, max_depth=3 if tier == "quick" else 4,
+                 atoms=["any", "one", "one2", "not_one", "ab", "nl_one", "nl_set", "string_nl", "not_one_nl", "eol", "eolf", "eof"])
+    gs2 = []
+    for _ in range(40 if tier == "quick" else 400):
+        g, rej = G2.grammar()
+        g.alphabet = "ab\n\r"
+        if rnd.random() < 0.5:
+            attach_void_actions(g, rnd)
+        gs2.append(g)
     bl = byte_level_grammars()
     runs = []
+    for t in write_tus(workdir, "c09n", gs2, 10 if tier == "quick" else 25, 2, C09_INCLUDES):
+        runs.append(Run(t, args=["--prop", "C09"]))
     for t in write_tus(workdir, "c09s", shapes, 14, 2, C09_INCLUDES):
         runs.append(Run(t, args=["--prop", "C09", "--rc", "400" if tier == "quick" else "5000"]))
     for t in write_tus(workdir, "c09c", gs, 10 if tier == "quick" else 25, 2, C09_INCLUDES):
@@ -346,7 +358,7 @@ spec("C09", plan=plan_c09,
      rule="(a) every rule named in the property instantiated over adversarial scripted leaves (slots that consume then fail and rewind only "
           "when rewinding is required, succeed empty, raise, or throw), all repetition bounds 0..4, bare / inside seq / inside sor (thorough: "
           "also nested pairs), rapidcheck-generated scripts and inputs; (b) seeded random grammars mixing core and convenience rules over "
-          "real atoms, all inputs up to length 5/7; (c) byte-level rules (eolf keyword identifier shebang string istring two three ellipsis "
+          "real atoms, all inputs up to length 5/7, once over letters and once over {a, b, LF, CR} with eol / eolf / eof atoms; (c) byte-level rules (eolf keyword identifier shebang string istring two three ellipsis "
           "ranges everything rep_string rep_one_min_max forty_two) on all strings over rule-specific alphabets up to length 6/7 and runs of "
           "38..45 characters with one mutation.  Oracle: the documented expansion (transcribed from doc/Rule-Reference.md in vf/gen.py) "
           "evaluated by the reference PEG interpreter: result, consumed prefix, blamed rule and message of the global failure, and the "
@@ -567,6 +579,31 @@ def gen_grammars(n, seed, ops, depth, rnd, kinds, veto=False, throw=False, errms
     return out
 
 
+def mustif_grammars(q, seed, rnd):
+    """must_if< errs, ... >::control: custom messages per rule, raise on local failure by default for rules with a message, or
+    governed by an explicit errs::raise_on_failure override."""
+    gm = gen_grammars(40 if q else 400, seed * 1000 + 43, CORE_OPS + ["must", "if_must", "opt_must", "list_must", "try_catch_return_false", "list", "pad"],
+                      3 if q else 4, rnd, [1, 2], errmsg=True)
+    for g in gm:
+        L = gen.Lowered(g)
+        cts = sorted(set(m.ctype for m in L.nodes if m.ctype and not m.ctype.startswith("tao::pegtl::raise")))
+        msg = {}
+        rof = {}
+        for ct in cts:
+            if rnd.random() < 0.25:
+                msg[ct] = "expected #%d" % (len(msg) + 1)
+        override = rnd.random() < 0.5
+        if override:
+            for ct in cts:
+                x = rnd.random()
+                if ct in msg:
+                    rof[ct] = x < 0.4   # a message that is only used by must<>, not on every local failure
+                else:
+                    rof[ct] = x < 0.08  # raise on failure without an own message
+        g.mustif = {"msg": msg, "rof": rof, "override": override}
+    return gm
+
+
 def action_corpus(pid, tier, seed, workdir):
     """Corpus shared by C04 / C05 / C08 (run with different --prop, hence different oracles and counters)."""
     import random
@@ -601,31 +638,15 @@ def action_corpus(pid, tier, seed, workdir):
         extra.append(N("not_at", [N(o, [N("seq", [S(0), N("raise", [S(1)])])])]))
     shapes += in_contexts(extra, contexts=("bare", "seq"))
     per = 10 if q else 25
+    if pid in ("C05", "C08"):
+        gm = mustif_grammars(q, seed, rnd)
     if pid == "C05":
-        # must_if< errs, observer >::control: custom messages per rule, raise on local failure by default for rules with a
-        # message, or governed by an explicit errs::raise_on_failure override
-        gm = gen_grammars(40 if q else 400, seed * 1000 + 43, CORE_OPS + ["must", "if_must", "opt_must", "list_must", "try_catch_return_false", "list", "pad"],
-                          3 if q else 4, rnd, [1, 2], errmsg=True)
-        for g in gm:
-            L = gen.Lowered(g)
-            cts = sorted(set(m.ctype for m in L.nodes if m.ctype and not m.ctype.startswith("tao::pegtl::raise")))
-            msg = {}
-            rof = {}
-            for ct in cts:
-                if rnd.random() < 0.25:
-                    msg[ct] = "expected #%d" % (len(msg) + 1)
-            override = rnd.random() < 0.5
-            if override:
-                for ct in cts:
-                    x = rnd.random()
-                    if ct in msg:
-                        rof[ct] = x < 0.4   # a message that is only used by must<>, not on every local failure
-                    else:
-                        rof[ct] = x < 0.08  # raise on failure without an own message
-            g.mustif = {"msg": msg, "rof": rof, "override": override}
         for t in write_tus(workdir, "a5", gm, per, 9, C09_INCLUDES):
             runs.append(Run(t, args=["--prop", pid]))
     if pid == "C08":
+        # state_control / coverage wrapped around a control whose failure() raises
+        for t in write_tus(workdir, "h5", gm, per, 10, C09_INCLUDES):
+            runs.append(Run(t, args=["--prop", pid]))
         for tag, gs_, n_ in (("h1", g1, per), ("h1b", g1b, per), ("h1c", g1c, 54 if q else 60), ("h2", g2, per), ("h3", g3, per), ("h4", shapes, 16)):
             for t in write_tus(workdir, tag, gs_, n_, 4, C09_INCLUDES):
                 runs.append(Run(t, args=["--prop", pid] + (["--rc", "400" if q else "5000"] if tag == "h4" else [])))
@@ -648,7 +669,8 @@ def action_corpus(pid, tier, seed, workdir):
 def plan_actions(pid):
     def plan(tier, seed, workdir, case):
         if case is not None:
-            cfgset = 4 if pid == "C08" else 9 if (pid == "C05" and case.get("grammar", {}).get("mustif")) else 3
+            mi = bool(case.get("grammar", {}).get("mustif"))
+            cfgset = (10 if mi else 4) if pid == "C08" else 9 if (pid == "C05" and case.get("grammar", {}).get("mustif")) else 3
             return replay_corpus_plan(pid, workdir, case, cfgset=cfgset, extra_includes=C09_INCLUDES)
         return action_corpus(pid, tier, seed, workdir)
     return plan
